@@ -159,7 +159,8 @@ theorem unreachable_reported (g : Cfg) (i : Nat) (hi : i < g.nodes.size)
 theorem jumpToFunction_reported (g : Cfg) (i p : Nat) (hi : i < g.nodes.size)
     (hfe : (g.get i).node.isFunctionEntry = true) (hf : (g.get i).funcs ≠ [])
     (hp : p ∈ (g.get i).prevs) (hnp : (g.get p).node.isProgramEntry = false)
-    (hj : (g.get p).node.isUnconditionalJump = true) :
+    (hj : (g.get p).node.isUnconditionalJump = true)
+    (hout : ∃ f ∈ (g.get i).funcs, f ∉ (g.get p).funcs) :
     ∃ x ∈ lintControlFlow g, x.code = "invalid-jump-to-function" ∧ x.range = (g.get i).node.tok.range ∧
       x.file = (g.get i).node.tok.file := by
   refine ⟨onNode "InvalidJumpToFunction" (g.get i).node, ?_, code_of _ _ _ _ _ _ (by decide), rfl, rfl⟩
@@ -173,7 +174,9 @@ theorem jumpToFunction_reported (g : Cfg) (i p : Nat) (hi : i < g.nodes.size)
     cases h : (g.get i).funcs with
     | nil => exact absurd h hf
     | cons _ _ => rfl
+  obtain ⟨f, hfm, hfn⟩ := hout
   simp [entryPredDiags, hf', hnp, hj]
+  exact ⟨f, hfm, hfn⟩
 
 theorem functionFirst_reported (g : Cfg) (i p : Nat) (hi : i < g.nodes.size)
     (hfe : (g.get i).node.isFunctionEntry = true) (hf : (g.get i).funcs ≠ [])
@@ -197,11 +200,13 @@ theorem functionFirst_reported (g : Cfg) (i p : Nat) (hi : i < g.nodes.size)
   | cons a _ => exact ⟨a, List.mem_cons_self, trivial⟩
 
 /-- every instruction other than the program entry has a predecessor, and no function entry is
-    reached from the program entry or by an unconditional jump ⇔ the pass is silent -/
+    reached from the program entry or by an unconditional jump from outside one of the functions it
+    belongs to ⇔ the pass is silent -/
 theorem controlFlow_silent (g : Cfg) :
     lintControlFlow g = [] ↔ ∀ cn ∈ g.nodes.toList,
       (cn.node.isFunctionEntry = true → ∀ p ∈ cn.prevs, cn.funcs = [] ∨
-        ((g.get p).node.isProgramEntry = false ∧ (g.get p).node.isUnconditionalJump = false)) ∧
+        ((g.get p).node.isProgramEntry = false ∧
+          ((g.get p).node.isUnconditionalJump = false ∨ ∀ f ∈ cn.funcs, f ∈ (g.get p).funcs))) ∧
       (cn.node.isFunctionEntry = false → cn.node.isProgramEntry = false → cn.prevs ≠ []) := by
   unfold lintControlFlow
   rw [List.flatMap_eq_nil_iff]
@@ -228,7 +233,8 @@ theorem controlFlow_silent (g : Cfg) :
           simp only [hpe', Bool.false_eq_true, if_false] at this
           by_cases hj : (g.get p).node.isUnconditionalJump = true
           · simp [hj] at this
-          · exact ⟨hpe', by simpa using hj⟩
+            exact ⟨hpe', Or.inr this⟩
+          · exact ⟨hpe', Or.inl (by simpa using hj)⟩
     · intro hfe hpe hp
       simp [controlFlowAt, hfe, hpe, hp] at hh
   · intro h cn hcn
@@ -238,9 +244,15 @@ theorem controlFlow_silent (g : Cfg) :
     · simp only [hfe, if_true, List.flatMap_eq_nil_iff]
       intro p hp
       unfold entryPredDiags
-      rcases h1 hfe p hp with hf | ⟨hpe, hj⟩
+      rcases h1 hfe p hp with hf | ⟨hpe, hj | hall⟩
       · simp [hf]
       · simp [hpe, hj]
+      · have hany : (cn.funcs.any fun f => !(g.get p).funcs.contains f) = false := by
+          rw [List.any_eq_false]
+          intro f hfm
+          simpa using hall f hfm
+        simp only [hpe, hany, Bool.and_false, Bool.false_eq_true, if_false]
+        split <;> rfl
     · have hfe' : cn.node.isFunctionEntry = false := by simpa using hfe
       simp only [hfe', Bool.false_eq_true, if_false]
       by_cases hpe : cn.node.isProgramEntry = true
